@@ -79,6 +79,7 @@ type VC struct {
 	results  []retRec
 	lets     map[string]Val
 	specDepth int
+	lastPos token.Pos
 	specQuant bool
 	readSites []string
 	searchRes []string
@@ -191,6 +192,11 @@ func (vc *VC) count(kind string) int {
 func (vc *VC) pos(p token.Pos) token.Position {
 	if !p.IsValid() && vc.curInstr != nil {
 		p = vc.curInstr.Pos()
+	}
+	if p.IsValid() {
+		vc.lastPos = p
+	} else {
+		p = vc.lastPos
 	}
 	return vc.W.Fset.Position(p)
 }
